@@ -15,6 +15,9 @@ CLAIMS = {
  'C05': dict(cat='proof', ref='DESIGN.md 7 (C05), 12',
    text="Kernel claim, gates and dispatch only: taggedData(Tag, array) hands out a DataView only for a block inside the array (offset+count within the extent in every dimension, in the integers) and raises otherwise; featureData(Tag, feature) cuts tagged features like references and returns untagged and indexed features whole (offset 0, count = extent), refuses a feature without data; Tag::getFeature / getReference / featureData(tag, index) raise OutOfBounds for every index past the end and forward every valid one.",
    note=NOTE_COMMON + "KERNEL ONLY: getOffsetAndCount (per-dimension index assembly, padding of unspecified dimensions, point-tag fallback, unit scaling) is behind a contract that leaves its result unconstrained, so the sentence 'exactly the elements with p <= c <= p+e' is NOT decided here (the per-axis index rules are C07). Handles are abstracted to the state read; DataView constructor and positionAndExtentInData contracts are assumed here (the first is proved in C17)."),
+ 'C06': dict(cat='proof', ref='DESIGN.md 7 (C06), 12',
+   text="Kernel claim, two statement regions of dataAccess.cpp: (A) the per-position, per-dimension assembly in getOffsetAndCount(MultiTag): a region with elements yields offset = first index and count = last-first+1, a point (no or zero extent) yields the first element at or after the position, an empty region or a point beyond the axis raises, and no other dimension and no other vector is touched; (B) the Indexed-feature branch: slice i along the first dimension (offset (i,0,..), count (1, extent[1..])), OutOfBounds for an index past the first dimension.",
+   note=NOTE_COMMON + "KERNEL ONLY: reading the positions/extents rows, padding of unspecified dimensions, unit scaling, the index-list gate (max_element) and 'list = map(single)' are not covered; the index pair of a region and GreaterOrEqual(position) are ghost inputs (their rules are C07's contracts, not connected here). Region B: ranks 0..3 quick, 0..32 thorough."),
  'C09': dict(cat='proof', ref='DESIGN.md 7 (C09), 12',
    text="Kernel claim: the mode decisions of the open path are postconditions of map_file_mode, of two statement regions of the FileHDF5 constructor (mode forced to Overwrite for a missing path; H5Fopen RDONLY / RDWR vs H5Fcreate TRUNC, exactly one libhdf5 call), of File::open's ReadOnly-on-missing-path guard, of setCreatedAt/setUpdatedAt (written iff missing) and of checkHeader (header defects refused).",
    note=NOTE_COMMON + "Kernel only: that libhdf5 honours H5F_ACC_RDONLY (never changes a byte), that mutating calls fail on a read-only handle and that TRUNC empties the file are assumed, not verified. fileExists / boost::filesystem::exists are one ghost constant."),
@@ -47,7 +50,7 @@ NA = {
  'C20': "breadth-first search over std::list/std::function on HDF5-backed handles; not extractable without writing a model",
 }
 PENDING = {k: "check not built yet (planned kernel claim, DESIGN.md section 7)" for k in
-           ['C06', 'C18', 'C19']}
+           ['C18', 'C19']}
 def main():
     extra = json.load(open(os.path.join(ROOT, 'vlib', 'claims_extra.json'))) if os.path.exists(os.path.join(ROOT, 'vlib', 'claims_extra.json')) else {}
     checks = []
